@@ -88,7 +88,10 @@ def stack_ops():
 def strategy(tier):
     routes = st.lists(st.tuples(st.integers(0, len(PATTERNS) - 1), st.sampled_from(ACTIONS)).map(list), max_size=5)
     single = st.fixed_dictionaries({'routes': routes, 'bundles': st.lists(bundle_specs(), min_size=3, max_size=14)})
-    stack = st.fixed_dictionaries({'kind': st.just('stack'), 'ops': stack_ops(), 'keepalive': st.sampled_from([0, 0, 10])})
+    stack = st.fixed_dictionaries({'kind': st.just('stack'), 'ops': stack_ops(), 'keepalive': st.sampled_from([0, 0, 10]),
+                                   'hops': st.lists(st.sampled_from(['tcpcl', 'tcpcl', 'udpcl']), min_size=2, max_size=2),
+                                   'umtu': st.sampled_from([None, 100]), 'rmtu': st.sampled_from([None, None, 150]),
+                                   'size': st.sampled_from([8, 8, 300])})
     return st.one_of(single, single, single, stack)
 
 
@@ -136,11 +139,17 @@ def execute_stack(case):
     from vlib import stack_world as sw, bpconv, ref9171 as r, tcpcl_world as tw
     import dbus
     out = Outcome()
+    hop12, hop23 = case.get('hops') or ['tcpcl', 'tcpcl']
+    rmtu = case.get('rmtu')
     world = sw.StackWorld([
-        dict(routes=[('^dtn://n[23]/', 2)], rx_routes=[('^dtn://n1/', 'deliver')]),
-        dict(routes=[('^dtn://n1/', 1), ('^dtn://n3/', 3)], rx_routes=[('^dtn://n2/', 'deliver'), ('^dtn://n[13]/', 'forward')]),
-        dict(routes=[('^dtn://n[12]/', 2)], rx_routes=[('^dtn://n3/', 'deliver')]),
-    ], tcpcl_kwargs=dict(keepalive_time=case.get('keepalive', 0)))
+        dict(routes=[('^dtn://n[23]/', 2, hop12, rmtu)], rx_routes=[('^dtn://n1/', 'deliver')]),
+        dict(routes=[('^dtn://n1/', 1, hop12, rmtu), ('^dtn://n3/', 3, hop23, rmtu)],
+             rx_routes=[('^dtn://n2/', 'deliver'), ('^dtn://n[13]/', 'forward')]),
+        dict(routes=[('^dtn://n[12]/', 2, hop23, rmtu)], rx_routes=[('^dtn://n3/', 'deliver')]),
+    ], tcpcl_kwargs=dict(keepalive_time=case.get('keepalive', 0)), udpcl_mtu=case.get('umtu'))
+    out.label('stack-hops:%s+%s' % (hop12, hop23))
+    if rmtu:
+        out.label('stack-route-mtu')
     try:
         seq = 0
         sent = {}
@@ -155,7 +164,7 @@ def execute_stack(case):
                 flags = (r.FLAG_RPT_RECEPTION | r.FLAG_RPT_FORWARD | r.FLAG_RPT_DELIVERY) if rpt else 0
                 pri = dict(version=7, flags=flags, crc_type=1, dest=['dtn', '//n%d/svc' % dest], src=['dtn', '//n%d/app' % origin],
                            rpt=['dtn', '//n%d/' % origin] if rpt else ['dtn', 'none'], ts=[1000, seq], lifetime=3600000, frag=None)
-                bundle = {'primary': pri, 'blocks': [dict(type=1, num=1, flags=0, crc_type=2, data=(b'stack-%d' % seq).hex())]}
+                bundle = {'primary': pri, 'blocks': [dict(type=1, num=1, flags=0, crc_type=2, data=((b'stack-%d-' % seq) * 60)[:case.get('size', 8)].hex())]}
                 err = world.hosts[origin].originate(bpconv.to_repo(bundle))
                 if err is not None:
                     out.fail('originate-raises:%s' % type(err).__name__, 'send_bundle at n%d raised %s: %s' % (origin, type(err).__name__, err))
@@ -183,7 +192,7 @@ def execute_stack(case):
         world.advance(1000)
         # every bundle on every hop, from the wire
         seen_on_hop = {}
-        for xfer in world.transfers():
+        for xfer in world.transfers() + world.udp_bundles():
             if not xfer['complete']:
                 out.label('incomplete-transfer')
                 continue
@@ -194,6 +203,8 @@ def execute_stack(case):
                 continue
             pri = dec['primary']
             ident = (tuple(pri['src']), pri['ts'][0], pri['ts'][1])
+            if pri['frag'] is not None:
+                ident += (pri['frag'][0], len(dec['blocks'][-1]['data']) // 2)
             seen_on_hop.setdefault((xfer['src'], xfer['dst'], ident), []).append(xfer['link'])
         for (src, dst, ident), links in sorted(seen_on_hop.items(), key=repr):
             out.count('hop-transmissions')
